@@ -12,7 +12,7 @@
     the asked zone; and, with the clock past twice the lifetime, the read gives unknown.
 
 Entity level (checks/gwfresh.py): a real Gateway with a controller and zones 00-02 receives K state messages whose
-form (array / per-zone, 30C9 / 2309 / 2349), zone, value and time of receipt are solver variables, through the real
+form (array / per-zone, 30C9 / 2309 / 2349, DHW 1260 / 10A0), zone, value and time of receipt are solver variables, through the real
 dispatcher and MultiZone/Zone handlers; all zones' temperature and setpoint are then read at a solver-chosen time:
 the newest live message covering a zone is what is reported, and a value is reported only while a message
 carrying it is younger than twice its lifetime plus the grace."""
@@ -32,9 +32,9 @@ FUNCTIONS = ["ramses_tx.packet:pkt_lifespan", "ramses_tx.message:Message._expire
              "ramses_rf.gateway:Gateway._msg_handler", "ramses_rf.dispatcher:process_msg", "ramses_rf.system.heat:MultiZone._handle_msg", "ramses_rf.system.zones:Zone._handle_msg", "ramses_rf.system.zones:Zone._msg_value",
              "ramses_rf.system.zones:Zone.temperature", "ramses_rf.system.zones:Zone.setpoint"]
 BOUNDS = {"quick": {"expiry": "one logged frame per I/RP verb/code pair; clock offsets two solver reals 0 <= e1 <= e2 <= 10^7 s; 1F09 count-down all 65536 values", "freshness": "2 messages + 3 unrelated ones, 4 stateful codes, dict and array forms",
-                    "entity level": "real Gateway, zones 00-02; every ordered pair of the 6 message forms + 6 triples; per message: zone a solver digit, value a solver 16-bit word (0000-7EFE without 31FF), time of receipt a solver real (strictly increasing, <= 30000 s); read time a solver real <= 30000 s later; reads repeated K+2 times"},
+                    "entity level": "real Gateway, zones 00-02 + the stored hot water; every ordered pair of the 8 message forms + 8 triples; per message: zone a solver digit, value a solver 16-bit word (0000-7EFE without 31FF), time of receipt a solver real (strictly increasing, <= 30000 s); read time a solver real <= 30000 s later; reads repeated K+2 times"},
           "thorough": {"expiry": "up to 3 logged frames per pair", "freshness": "7 stateful codes", "entity level": "+ every triple of forms containing an array"}}
-OUTSIDE = ["routing to DHW / UFH circuits and the other stateful codes at entity level (000A, 12B0, 3150 ...: covered at the state-DB level only)", "the SQLite message index (gwy._zzz): disabled as in the default configuration"]
+OUTSIDE = ["routing to UFH circuits and the other stateful codes at entity level (000A, 12B0, 3150, 1F41 ...: covered at the state-DB level only)", "the SQLite message index (gwy._zzz): disabled as in the default configuration"]
 STUBS = ["gateway: object with _dt_now() = receipt time + symbolic offset, _zzz = None, _loop.call_soon recording the deferred deletions (run after the read)",
          "entity: a _MessageDB subclass instance carrying only id/_gwy/_msgs_/_msgz_"]
 ASSUMPTIONS = ["lifetime L of a message = what pkt_lifespan assigns to its kind (payload-derived for sync-cycle packets): the property fixes the 1x / 2x+3 s thresholds, not the table"]
